@@ -22,7 +22,7 @@ from ..drivers import Harness, canon_interp, strip_uuid
 UNIT_TIMEOUT = 900  # backstop against a hung unit only; thread-slice subtrees can take minutes on a loaded machine
 LEVEL = "model_checking"
 RULE = (
-    "parent machine with one root-level event per actor operation: spawnChild with id / with id+systemId / anonymous, "
+    "parent machine with one root-level event per actor operation: spawnChild with id / with id+systemId / anonymous (explicit ids in a prefix relation 'a' / 'ab', generated ids made of the names used for addressing), "
     "spawn_<service> action, sendTo by id / systemId / service key / unknown name, forwardTo, delayed sendTo with a "
     "send id, a second delayed send reusing the id, cancel(id), stopChild by id / systemId, child spawning a grandchild that registers a systemId of its own, "
     "escalate, TICK (virtual time passes), stop; BFS over operation sequences to the depth bound, deduplicated by "
@@ -80,7 +80,7 @@ def make(rec) -> Dict[str, Any]:
     )
     on = {
         "SP_ID": {"actions": [A.spawn_child("kid", actor_id="a")]},
-        "SP_SYS": {"actions": [A.spawn_child("kid", actor_id="b", system_id="sysb")]},
+        "SP_SYS": {"actions": [A.spawn_child("kid", actor_id="ab", system_id="sysb")]},
         "SP_ANON": {"actions": [A.spawn_child("kid")]},
         "SP_ACT": {"actions": ["spawn_kid"]},
         "SEND_A": {"actions": [A.send_to("a", seq_event("MSG"))]},
@@ -170,8 +170,8 @@ class Model:
         if op == "SP_ID":
             self.spawn("m:a")
         elif op == "SP_SYS":
-            self.spawn("m:b")
-            self.registry["sysb"] = "m:b"
+            self.spawn("m:ab")
+            self.registry["sysb"] = "m:ab"
         elif op in ("SP_ANON", "SP_ACT"):
             self.anon += 1
             self.spawn(f"m:kid:*#{self.anon}")
@@ -249,6 +249,11 @@ class Run:
         self.h.cfg = spec["cfg"]
         self.h._kw["services"] = spec["services"]
         self.h._kw["extra_actions"] = spec["actions"]
+        # generated ids are made of the very names used for addressing ('a', 'ab', 'kid', 'g'): a name must never match
+        # inside a generated id or inside a longer explicit id
+        from ..drivers import install_uuid
+
+        install_uuid(lambda n: f"{n:08x}-abab-4kid-8aab-{n:011x}g")
         self.d = self.h.driver(engine)
         self.d.start()
         self.model = Model()
